@@ -327,6 +327,24 @@ def direct_clauses(pid, bench, ta, a, tb, b):
     for x, tx, y, ty in ((a, ta, b, tb), (b, tb, a, ta)):
         for c, d in COMPLEMENTS:
             rc, rd = R(constraints=[mk(c, y)]), R(constraints=[mk(d, y)])
+            if pid == "C04" and c in ("<=", "<"):
+                # a bound far away on the other side changes nothing: x against [>= y] and [>= y | < top], where top is
+                # above both (the single-constraint shortcut and the interval scan must agree)
+                reps = [cl[0] for cl in bench.pool.classes]
+                for lowc, upc, far in ((">=", "<", reps[-1:]), (">", "<=", reps[-1:]), ("<=", ">", reps[:1]), ("<", ">=", reps[:1])):
+                    for tf, fv in far:
+                        try:
+                            inside = (x < fv and y < fv) if upc in ("<", "<=") else (x > fv and y > fv)
+                            if not inside:
+                                continue
+                            one = R(constraints=[mk(lowc, y)])
+                            two = R(constraints=[mk(lowc, y), mk(upc, fv)])
+                        except Exception:  # noqa: BLE001
+                            continue
+                        a1, a2 = _mem(one, x), _mem(two, x)
+                        if isinstance(a1, bool) and a1 != a2:
+                            yield ("a bound beyond both versions changes the answer",
+                                   {"version": tx, "range_1": str(one), "in_1": a1, "range_2": str(two), "in_2": a2})
             if pid == "C04":
                 m1, m2 = _mem(rc, x), _mem(rd, x)
                 if m1 == m2 or not isinstance(m1, bool) or not isinstance(m2, bool):
